@@ -87,6 +87,10 @@ func (idx *KVIndex) ListFields() []string {
 // AddDoc adds new document to the index
 func (idx *KVIndex) AddDoc(docID string, value map[string]interface{}) error {
 	err := idx.KV.Update(func(tx kvi.KVTransaction) error {
+		//a document that is already indexed is replaced: drop its old entries
+		if err := idx.removeDocTx(tx, docID); err != nil {
+			return err
+		}
 		return idx.AddDocTx(tx, docID, value)
 	})
 	if err != nil {
@@ -177,56 +181,62 @@ func (idx *KVIndex) termGetCount(tx kvi.KVTransaction, field string, ttype TermT
 // RemoveDoc removes a document from the index: TODO
 func (idx *KVIndex) RemoveDoc(docID string) error {
 	err := idx.KV.Update(func(tx kvi.KVTransaction) error {
-		log.WithFields(log.Fields{"document_id": docID}).Debug("KVIndex: deleting document")
-		docKey := DocKey(docID)
-		data, err := tx.Get(docKey)
-		if err != nil {
-			return nil
-		}
-		doc := Doc{}
-		err = proto.Unmarshal(data, &doc)
-		if err != nil {
-			return fmt.Errorf("failed to unmarshal document: %v", err)
-		}
-		for _, entryKey := range doc.Entries {
-			err = tx.Delete(entryKey)
-			if err != nil {
-				return fmt.Errorf("failed to delete entry %s: %v", entryKey, err)
-			}
-
-			field, ttype, term, _ := EntryKeyParse(entryKey)
-			termKey := TermKey(field, ttype, term)
-			if count, err := idx.termGetCount(tx, field, ttype, term); err == nil {
-				if count > 0 {
-					count = count - 1
-				}
-				//if count == 0, then the term should be removed from the index
-				if count == 0 {
-					err = tx.Delete(termKey)
-					if err != nil {
-						return fmt.Errorf("failed to delete term key %s: %v", termKey, err)
-					}
-				} else {
-					buf := make([]byte, binary.MaxVarintLen64)
-					binary.PutUvarint(buf, count)
-					err = tx.Set(termKey, buf)
-					if err != nil {
-						return fmt.Errorf("failed to set term key %s: %v", termKey, err)
-					}
-				}
-			} else {
-				return fmt.Errorf("Termcount Error: %s", err)
-			}
-		}
-
-		err = tx.Delete(docKey)
-		if err != nil {
-			return fmt.Errorf("failed to delete document %s: %v", docKey, err)
-		}
-		return nil
+		return idx.removeDocTx(tx, docID)
 	})
 	if err != nil {
 		return fmt.Errorf("RemoveDoc call failed: %v", err)
+	}
+	return nil
+}
+
+// removeDocTx removes the entries of a document inside a transaction
+func (idx *KVIndex) removeDocTx(tx kvi.KVTransaction, docID string) error {
+	log.WithFields(log.Fields{"document_id": docID}).Debug("KVIndex: deleting document")
+	docKey := DocKey(docID)
+	data, err := tx.Get(docKey)
+	if err != nil {
+		return nil
+	}
+	doc := Doc{}
+	err = proto.Unmarshal(data, &doc)
+	if err != nil {
+		return fmt.Errorf("failed to unmarshal document: %v", err)
+	}
+	for _, entryKey := range doc.Entries {
+		field, ttype, term, _ := EntryKeyParse(entryKey)
+		termKey := TermKey(field, ttype, term)
+		//count before the entry is deleted: an invalidated count is recounted from the entries
+		count, cerr := idx.termGetCount(tx, field, ttype, term)
+		err = tx.Delete(entryKey)
+		if err != nil {
+			return fmt.Errorf("failed to delete entry %s: %v", entryKey, err)
+		}
+		if cerr != nil {
+			//the term is already gone, its field has been removed
+			continue
+		}
+		if count > 0 {
+			count = count - 1
+		}
+		//if count == 0, then the term should be removed from the index
+		if count == 0 {
+			err = tx.Delete(termKey)
+			if err != nil {
+				return fmt.Errorf("failed to delete term key %s: %v", termKey, err)
+			}
+		} else {
+			buf := make([]byte, binary.MaxVarintLen64)
+			binary.PutUvarint(buf, count)
+			err = tx.Set(termKey, buf)
+			if err != nil {
+				return fmt.Errorf("failed to set term key %s: %v", termKey, err)
+			}
+		}
+	}
+
+	err = tx.Delete(docKey)
+	if err != nil {
+		return fmt.Errorf("failed to delete document %s: %v", docKey, err)
 	}
 	return nil
 }
@@ -413,7 +423,7 @@ func (idx *KVIndex) FieldTermNumberMax(field string) float64 {
 			_, _, term := TermKeyParse(it.Key())
 			val := GetBytesTerm(term, TermNumber).(float64)
 			log.WithFields(log.Fields{"field": field}).Debugf("KVIndex: FieldTermNumberMax: MaxScan: %f", val)
-			if val > 0 {
+			if val >= 0 {
 				min = val
 				return nil
 			}
@@ -439,10 +449,17 @@ func (idx *KVIndex) FieldTermNumberRange(field string, min, max float64) chan KV
 	minBytes, _ := GetTermBytes(min)
 	maxBytes, _ := GetTermBytes(max)
 	out := make(chan KVTermCount, 100)
-	defer close(out)
 	if min > max {
+		close(out)
 		return out
 	}
+	//the scans run while the caller reads: more than 100 terms would never fit the buffer
+	go idx.fieldTermNumberRange(field, min, max, minBytes, maxBytes, out)
+	return out
+}
+
+func (idx *KVIndex) fieldTermNumberRange(field string, min, max float64, minBytes, maxBytes []byte, out chan KVTermCount) {
+	defer close(out)
 
 	if min < 0 {
 		minPrefix := EntryValuePrefix(field, TermNumber, minBytes)
@@ -498,6 +515,4 @@ func (idx *KVIndex) FieldTermNumberRange(field string, min, max float64) chan KV
 			return nil
 		})
 	}
-
-	return out
 }
